@@ -117,6 +117,11 @@ def label(e):
     return e["f"] if e["d"] == 1 else "%sx%d" % (e["f"], e["d"])
 
 
+def noncanonical(e):
+    p = P[e["f"]]
+    return any(val(x) >= p for k in ("a", "b", "r") if k in e for x in e[k])
+
+
 def signature(e):
     """Stable, specific class of a rejected event (reporting / known-finding matching only)."""
     fl, op = label(e), e["op"]
@@ -312,6 +317,12 @@ def judge(ck, events, rejected, seed, tier):
         e = events[i]
         if e.get("cert"):
             raise vf.ToolError("certificate event rejected (committed spec data wrong?): %s" % json.dumps({k: e[k] for k in ("f", "d", "op", "k")}))
+        if not (e.get("timeout") or e.get("crash") or e.get("panic")) and noncanonical(e):
+            # the recorder reports operands / results through as_int / to_bytes: a value >= the modulus is
+            # what TraceFieldOps!CanonVec rejects (the element's integer value is not its canonical one)
+            by_sig.setdefault("%s as_int/to_bytes reports a value >= the modulus (operand classes %s/%s)"
+                              % (label(e), e.get("ca"), e.get("cb")), []).append(i)
+            continue
         if not (e.get("timeout") or e.get("crash") or e.get("panic")):
             exp = expected(e)
             got = e["eq"] if e["op"] == "eq" else vec(e["r"])
